@@ -2,6 +2,8 @@
 use crate::fw::{LaneCtx, Verdict};
 use serde_json::Value;
 
+pub mod c04;
+pub mod c05;
 pub mod c06;
 pub mod c09;
 pub mod c12;
@@ -29,6 +31,8 @@ macro_rules! registry {
 }
 
 registry! {
+    "C04" => c04,
+    "C05" => c05,
     "C06" => c06,
     "C09" => c09,
     "C12" => c12,
